@@ -62,6 +62,17 @@ def candidates(rng, n):
         E["fwd_asref"], E["fwd_into"] = asref, into
         cands.append(E)
         did += 1
+    # an inner value that is the enum itself (behind Box / Rc): a nested derived enum whose Display is the one being generated
+    for wrap, ty in (("Box", "boxself"), ("Box", "boxself")):
+        tv = variant("Paren", "tuple" if did % 2 else "named", [field(ty, "" if did % 2 else "inner")], transp=True)
+        E = enum(did, [variant("Lit", ser=["lit"]), tv, variant("Neg", "tuple", [field(ty)], transp=True, ser=["neg"])], name="Expr%d" % did)
+        n = E["name"]
+        tv["inner_vals"] = ["Box::new(%s::Lit)" % n, "Box::new(%s::Neg(Box::new(%s::Lit)))" % (n, n)]
+        E["variants"][2]["inner_vals"] = ["Box::new(%s::Lit)" % n, "Box::new(%s::Lit)" % n]
+        E["extra_items"] = "impl ::core::default::Default for %s { fn default() -> Self { %s::Lit } }\n" % (n, n)
+        E["fwd_asref"], E["fwd_into"] = False, False
+        cands.append(E)
+        did += 1
     return cands
 
 
